@@ -29,11 +29,34 @@ func init() {
 		Phases: []Phase{
 			{Name: "random strings", N: Fixed(50000, 5000000), Run: c18Random},
 			{Name: "all strings of <=3 atoms over 12 hostile atoms", Exhaustive: true, N: Fixed(1+12+144+1728, 1+12+144+1728), Run: c18Exhaustive},
+			{Name: "very long lines (around 4 KiB and 64 KiB, and 200 kB) x 4 line shapes", Exhaustive: true, N: Fixed(len(c18LongLens)*4, len(c18LongLens)*4), Run: c18Long},
 		},
 	})
 }
 
 var c18Atoms = []string{"\n", "a", " ", "\u4e16", "\u0301", "\u200b", "\xff", "\U0001F1E9", "\r", "\uff9e", "\u200d", "\t"}
+
+var c18LongLens = []int{4095, 4096, 4097, 65535, 65536, 65537, 70000, 200000}
+
+func c18Long(c *Ctx, i int, r *gen.R) {
+	n := c18LongLens[i%len(c18LongLens)]
+	var s string
+	switch i / len(c18LongLens) {
+	case 0:
+		s = strings.Repeat("x", n)
+	case 1:
+		s = "short\n" + strings.Repeat("y", n) + "\nafter the long line"
+	case 2:
+		s = strings.Repeat("\u4e16", n/3) + "\n"
+	case 3:
+		s = strings.Repeat("ab\n", n/3)
+	}
+	c.Rec.Count("very_long_strings_checked", 1)
+	c.Rec.Eval(gen.Hash64("long", fmt.Sprint(i)), true)
+	c.Case = map[string]interface{}{"string": fmt.Sprintf("(%d bytes, shape %d)", len(s), i/len(c18LongLens))}
+	c18String(c, s)
+	c18Cells(c, s)
+}
 
 func c18Random(c *Ctx, i int, r *gen.R) {
 	base := r.StrN(c18Fam, r.Range(0, 12))
